@@ -91,7 +91,7 @@ CLAIMED = {
              "flooding min-sum with rational alpha and integer beta, plus rescaling invariance.",
         design_ref="7/C10",
         note="Exact comparison only on lattices where the arithmetic is rational/integer (ln2 lattice |a|<=2, n<=7 for posteriors; integers in 1/320 units for "
-             "min-sum, <=3 iterations); ties are excluded by a spec predicate and counted in the evidence; the sub-offset corner of offset min-sum is defined by the spec "
+             "min-sum, <=3 iterations); inputs with several maximum-likelihood codewords (ties) are judged too - any of them is accepted - and counted in the evidence; the sub-offset corner of offset min-sum is defined by the spec "
              "(a message weaker than the offset becomes zero) and judged like every other input.",
         technique="TLA+ spec SoftDecoding + TLC: exact-arithmetic oracle model checking, trace validation of recorded soft decodings"),
     "C11": dict(
